@@ -247,7 +247,9 @@ func (c *RetryClient) Disconnect(ctx context.Context) error {
 		}
 	}), "retryclient: disconnecting")
 	c.mu.Lock()
-	close(c.chTask)
+	if c.chTask != nil {
+		close(c.chTask)
+	}
 	c.stopped = true
 	c.mu.Unlock()
 	return err
@@ -284,6 +286,10 @@ func (c *RetryClient) SetClient(ctx context.Context, cli *BaseClient) {
 	firstClient := c.chTask == nil
 	if firstClient {
 		c.chTask = make(chan struct{}, 1)
+		if c.stopped {
+			// Disconnect was called before the first client was set.
+			close(c.chTask)
+		}
 	}
 	c.mu.Unlock()
 	c.muStats.Lock()
